@@ -8,6 +8,12 @@ COMMON_NOTE = ("Trusted: Coq 8.16.1 kernel (full .vo build, Print Assumptions = 
                "extraction with ExtrOcamlBasic only, ocaml/driver.ml, the Rust harness; the hand-written model is tied "
                "to /repo's source by the differential (correspondence) run of every check, the tables by the translator.")
 CLAIMS = {
+ "C12": ("The Coq theorems of C01/C02/C13/C14 are stated for EVERY layout over the attribute grammar (totality and termination of the generated "
+         "decoder, frame inverse, the struct decode function over positional fields and tagged groups in any order, decimal Fixed<k> fields), with a "
+         "kernel-evaluated example on a layout the shipped packets never use. Tie: random struct definitions (<= 8 fields, depth <= 3; 48 well-formed + "
+         "16 deliberately outside per round, 6 rounds in thorough) are compiled with the REAL derive macro; the translator must reproduce the generator's "
+         "tables from the generated Rust; canonical values are encoded by the reference encoder ('the layout the attributes describe'), decoded by the "
+         "generated code and by the model interpreting the same layout at run time; oracle: inverse + identical bytes.", "DESIGN.md section 6, C12"),
  "C04": ("Coq theorems about the model of io.rs: the writer's APDU header and the reader's interpretation agree for every body length <= 65535 "
          "(reader returns exactly the packet, leaves exactly the rest; the codec's own length parser agrees), k concatenated packets are read back as "
          "those k packets, a stream ending inside a packet never yields a packet, and reading over ANY chunking with Pending wake-ups anywhere equals "
